@@ -540,6 +540,8 @@ inductive Op
   /-- `del sheet.cssRules[i]` / `sheet.cssRules.pop(i)`: the list operation itself, not `deleteRule` (the
   assignment `cssRules.__delitem__ = self.deleteRule` on the instance does not reach the `del` statement) -/
   | rawDel (i : Nat)
+  /-- `sheet.cssRules[i].insertRule('sel {x:1}', idx)` on an @media rule of the sheet -/
+  | insMediaText (i : Nat) (sels : List SSel) (idx : Option Nat)
   deriving Repr
 
 def step (s : Sheet) : Op → Sheet × Outcome
@@ -594,6 +596,19 @@ def step (s : Sheet) : Op → Sheet × Outcome
   | .rawDel i => match s[i]? with
     | some _ => (s.eraseIdx i, .ok none)
     | none => (s, .err .badTarget)
+  | .insMediaText i sels idx => match s[i]? with
+    | some (.media rs) =>
+      -- `CSSRuleRules._prepareInsertRule` (`cssrule.py:238-265`): index check first; then the text is parsed in a
+      -- temporary sheet that gets the namespaces of the sheet this @media rule is in (fix cfe1126), so the
+      -- selectors resolve as they do at the top level; `_finishInsertRule` (:291-297) puts the rule at `index`
+      if idx.getD rs.length > rs.length then (s, .err .indexSizeErr)
+      else if sels.isEmpty then (s, .err .badTarget)
+      else match resolveSels (view s) sels with
+        | .error e => (s, .err e)
+        | .ok x =>
+          let j := idx.getD rs.length
+          (s.set i (.media (rs.take j ++ x :: rs.drop j)), .ok (some j))
+    | _ => (s, .err .badTarget)
 
 def run (s : Sheet) : List Op → Sheet
   | [] => s
